@@ -2529,7 +2529,7 @@ def classify_scheduler(ctx, W):
                 undrained.setdefault(f['q'], (f, hit[0]))
             elif exits and all(exits) and f['q'] not in always_drain:
                 always_drain.add(f['q'])
-    return dict(rec=srec, recid=srecid, pipe=pname, drains=drains, always_drain=always_drain, undrained=undrained)
+    return dict(rec=srec, recid=srecid, pipe=pname, pfield=pfield, drains=drains, always_drain=always_drain, undrained=undrained)
 
 
 def check_drain_before_discard(ctx, W, tus, info, verdicts=None):
@@ -2632,6 +2632,240 @@ def check_scheduler_teardown(ctx, W, info):
     return n
 
 
+# ================================================================================================
+#  R-C02-9 every thread that can reach a writer-side operation of a single-writer pipe owns a distinct pipe index
+# ================================================================================================
+R9 = 'R-C02-9'
+WRITER_SIDE = ('WriterTryWriteFront', 'WriterTryReadFront')     # LockLessMultiReadPipe: "single writer" operations
+THREAD_START = ('enki::ThreadCreate', 'pthread_create')
+LOCK_TYPES = ('std::lock_guard<', 'std::unique_lock<', 'std::scoped_lock<')
+
+
+def check_thread_index(ctx, W, info, verdicts=None):
+    tu, ts = W.scheduler, W.tasksys
+    file = None
+    # (a) thread-identity variables: thread-local integers
+    tls = [d for d in tu.nodes.values() if d.get('kind') == 'VarDecl' and d.get('tls') and tu.enclosing_fn(d) is None
+           and (d.get('type', {}).get('desugaredQualType') or d.get('type', {}).get('qualType', '')) in
+           ('unsigned int', 'int', 'uint32_t', 'int32_t', 'unsigned long', 'long', 'size_t')]
+    sched_fns = [f for f in tu.functions.values() if not f['dep'] and tu.cfg(f) is not None]
+
+    def local_origin(e):
+        d = decl_ref(tu, e)
+        c0 = core(tu, e)
+        if d is None and c0 is not None and c0.get('kind') == 'CallExpr':      # accessor: uint32_t ThisThreadNum() { return tlsVar; }
+            cf = tu.callee_fn(c0)
+            if cf is not None and tu.cfg(cf) is not None and not cf['params']:
+                rets = [y for b, i, y in tu.cfg(cf).stmts() if y.get('kind') == 'ReturnStmt' and tu.kids(y)]
+                if len(rets) == 1:
+                    d = decl_ref(tu, tu.kids(rets[0])[0])
+        n0 = 0
+        while d and n0 < 4:
+            n0 += 1
+            vd = tu.node(d)
+            if vd is not None and vd.get('kind') == 'VarDecl' and tu.enclosing_fn(vd) is not None and tu.kids(vd):
+                d2 = decl_ref(tu, tu.kids(vd)[-1])
+                if d2:
+                    d = d2
+                    continue
+            break
+        return d
+    # functions whose parameter k selects the pipe of a writer-side operation (closed over calls)
+    idx_params = {}        # fn id -> set(param index)
+    direct_tls = {}        # fn id -> {tls var id: node}
+    tls_ids = {d['id'] for d in tls}
+    for _ in range(5):
+        for f in sched_fns:
+            pids = [p['id'] for p in f['params']]
+            for b, i, x in tu.cfg(f).stmts():
+                k = x.get('kind')
+                if k == 'CXXMemberCallExpr' and tu.sd(x).get('q', '').split('::')[-1] in WRITER_SIDE:
+                    sd, obj, args = tu.call_parts(x)
+                    c = core(tu, obj) if obj is not None else None
+                    if c is not None and c.get('kind') == 'ArraySubscriptExpr' and member_of_this(tu, tu.kids(c)[0]) == info['pfield']:
+                        d = local_origin(tu.kids(c)[1])
+                        if d in pids:
+                            idx_params.setdefault(f['id'], set()).add(pids.index(d))
+                        elif d in tls_ids:
+                            direct_tls.setdefault(f['id'], {})[d] = x
+                elif k in X.CALLS:
+                    c = tu.callee_fn(x)
+                    if c is not None and c['id'] in idx_params:
+                        sd, obj, args = X.call_parts(tu, x)
+                        for j in idx_params[c['id']]:
+                            if j < len(args):
+                                d = local_origin(args[j])
+                                if d in pids:
+                                    idx_params.setdefault(f['id'], set()).add(pids.index(d))
+                                elif d in tls_ids:
+                                    direct_tls.setdefault(f['id'], {})[d] = x
+    used = {}
+    for fid, m in direct_tls.items():
+        for d, x in m.items():
+            used.setdefault(d, []).append((tu.functions[fid], x))
+    n = 0
+    for d in [t for t in tls if t['id'] in used]:
+        n += 1
+        vname = d.get('name')
+        v0 = const_value(tu, tu.kids(d)[-1]) if tu.kids(d) else 0
+        file = tu.rel(tu.files[tu.sd(d)['f']]) if 'f' in tu.sd(d) else SCHEDULER
+        inst = '[INTERNAL] thread-local pipe index `%s`' % vname + W.tag
+        dline = d.get('loc', {}).get('line') or d.get('range', {}).get('begin', {}).get('line')
+        dloc = '%s:%s' % (file, dline) if dline else tu.loc(used[d['id']][0][1])
+        # (b) assigning sites
+        assigns = []
+        for f in sched_fns:
+            for b, i, x in tu.cfg(f).stmts():
+                if x.get('kind') == 'BinaryOperator' and x.get('opcode') == '=' and decl_ref(tu, tu.kids(x)[0]) == d['id']:
+                    assigns.append((f, x))
+        # thread entry functions: passed to a thread-creation primitive
+        entries = set()
+        for f in sched_fns:
+            for b, i, x in tu.cfg(f).stmts():
+                if x.get('kind') == 'CallExpr' and tu.sd(x).get('q') in THREAD_START:
+                    for a in tu.call_parts(x)[2]:
+                        c = core(tu, a)
+                        if c is not None and c.get('kind') == 'UnaryOperator' and c.get('opcode') == '&':
+                            c = core(tu, tu.kids(c)[0])
+                        if c is not None and c.get('kind') == 'DeclRefExpr' and c.get('referencedDecl', {}).get('id') in tu.functions:
+                            entries.add(c['referencedDecl']['id'])
+                        elif c is not None and c.get('kind') == 'DeclRefExpr':
+                            for g2 in tu.fns(q=tu.sd(c).get('q', ''), dep=False):
+                                entries.add(g2['id'])
+        runners = reaches(tu, lambda q: q == X.ENKI_EXECUTE)
+        problems, und, oks = [], [], []
+        worker_assign = []
+        for eid in sorted(entries):
+            ef = tu.functions[eid]
+            if eid not in runners:
+                continue
+            g = tu.cfg(ef)
+            found = []
+
+            def transfer(blk, idx, e, st, ef=ef):
+                if e[0] != 'S':
+                    return [st]
+                x = tu.node(e[1])
+                if x is None:
+                    return [st]
+                if x.get('kind') == 'BinaryOperator' and x.get('opcode') == '=' and decl_ref(tu, tu.kids(x)[0]) == d['id']:
+                    cv = const_value(tu, tu.kids(x)[1])
+                    return ['const' if cv is not None else 'assigned']
+                if x.get('kind') in X.CALLS and tu.callee_fn(x) is not None and tu.callee_fn(x)['id'] in runners:
+                    found.append((st, x))
+                return [st]
+            X.exit_states(g, ['default'], transfer)
+            states = {st for st, x in found}
+            if 'default' in states:
+                problems.append(('worker-threads-keep-default-index', 'the worker thread function %s runs tasks (%s) on a path where it has not '
+                                 'assigned `%s`: every worker keeps the default index %s, so tasks that schedule further tasks all write '
+                                 'pipe %s concurrently (single-writer pipe: tasks are lost or run twice)'
+                                 % (short_name(ef['q']), tu.loc([x for st, x in found if st == 'default'][0]), vname, v0, v0), tu.fn_loc(ef)))
+            elif 'const' in states:
+                problems.append(('worker-threads-share-index', 'the worker thread function %s assigns the same constant to `%s` in every worker'
+                                 % (short_name(ef['q']), vname), tu.fn_loc(ef)))
+            elif states:
+                worker_assign.append(short_name(ef['q']))
+        # (c) public entry points of rkcommon that reach a writer-side pipe operation on the calling thread's index
+        we = {f['q'] for f, x in used[d['id']]}
+        for _ in range(4):
+            for f in sched_fns:
+                if f['q'] in we or f.get('recid') != info['recid']:
+                    continue
+                for b, i, x in tu.cfg(f).stmts():
+                    if x.get('kind') == 'CXXMemberCallExpr' and tu.sd(x).get('q') in we and X.is_this_expr(tu, tu.call_parts(x)[1] or {}):
+                        we.add(f['q'])
+        ts_fns = [f for f in ts.functions.values() if not f['dep'] and ts.cfg(f) is not None and not f.get('rec')
+                  and ts.fn_file(f).endswith('TaskSys.cpp')]
+        entry_calls = {}
+        for f in ts_fns:
+            for b, i, x in ts.cfg(f).stmts():
+                if x.get('kind') == 'CXXMemberCallExpr' and ts.sd(x).get('q') in we:
+                    entry_calls.setdefault(f['q'], []).append((f, x))
+        direct_entries = set(entry_calls)
+        all_entries = set(direct_entries)
+        for _ in range(3):
+            for f in ts_fns:
+                if f['q'] not in all_entries and any(y.get('kind') == 'CallExpr' and ts.sd(y).get('q') in all_entries
+                                                     for b, i, y in ts.cfg(f).stmts()):
+                    all_entries.add(f['q'])
+        # ---- recognised-correct forms
+        first_use = []
+        for f, x in assigns:
+            if f['id'] in entries or f['q'].split('::')[-1] in ('Initialize', 'StartThreads'):
+                continue
+            rhs = tu.kids(x)[1]
+            if any(is_full_fence(tu, y) or (atomic_op(tu, y) or (None,))[0] == 'rmw' for y in tu.walk(rhs) if y.get('kind') in X.CALLS):
+                first_use.append((f, x))
+        locked_all = bool(entry_calls)
+        lock_mutexes, used_mutexes = {}, set()
+        for q, lst in entry_calls.items():
+            for f, x in lst:
+                g = ts.cfg(f)
+                seen = []
+
+                def ltransfer(blk, idx, e, st, x=x):
+                    if e[0] == 'S':
+                        y = ts.node(e[1])
+                        if y is not None and y.get('kind') == 'DeclStmt':
+                            for vd in ts.kids(y):
+                                t = (vd.get('type', {}).get('desugaredQualType') or vd.get('type', {}).get('qualType', ''))
+                                if any(t.startswith(l) or ('std::' + t).startswith(l) for l in LOCK_TYPES):
+                                    for z in ts.walk(vd):
+                                        if z.get('kind') == 'DeclRefExpr' and 'mutex' in (z.get('type', {}).get('qualType', '')):
+                                            lock_mutexes.setdefault(vd['id'], z.get('referencedDecl', {}).get('id'))
+                                    return [st | frozenset([vd['id']])]
+                        if y is not None and y['id'] == x['id']:
+                            seen.append(bool(st))
+                            used_mutexes.update(lock_mutexes.get(v) for v in st)
+                    if e[0] == 'AD' and e[1] in st:
+                        return [st - frozenset([e[1]])]
+                    return [st]
+                X.exit_states(g, [frozenset()], ltransfer)
+                if not seen or not all(seen):
+                    locked_all = False
+        if locked_all and (len(used_mutexes) != 1 or None in used_mutexes):
+            locked_all = False          # different (or unrecognised) mutexes do not serialise the writers of one pipe
+        rejects = []
+        for f in sched_fns + ts_fns:
+            t2 = tu if f in sched_fns else ts
+            g = t2.cfg(f)
+            for blk in g.blocks.values():
+                if blk.cond and any(y.get('kind') == 'DeclRefExpr' and y.get('referencedDecl', {}).get('id') == d['id']
+                                    for y in t2.walk(t2.node(blk.cond))):
+                    for sx in blk.succ:
+                        if sx is not None and (g.blocks[sx].noret or any(e[0] == 'S' and t2.node(e[1]) is not None and
+                                                                         t2.node(e[1]).get('kind') == 'CXXThrowExpr' for e in g.blocks[sx].el)):
+                            rejects.append('%s (%s)' % (short_name(f['q']), t2.loc(blk.cond)))
+        ep = ', '.join(sorted(short_name(q) for q in all_entries)) or 'none'
+        derived = ('index variable `%s` (thread_local, default %s); assigned in: %s; worker entry functions assigning it before running '
+                   'tasks: %s; scheduler methods that use the calling thread\'s index for writer-side pipe operations: %s; rkcommon entry '
+                   'points reaching them: %s' % (vname, v0, ', '.join(sorted({short_name(f['q']) for f, x in assigns})) or 'nowhere',
+                                                 ', '.join(worker_assign) or 'none', ', '.join(sorted(short_name(q) for q in we)), ep))
+        if entry_calls and not first_use and not locked_all and not rejects:
+            f0, x0 = used[d['id']][0]
+            problems.append(('unregistered-threads-share-pipe-%s' % v0, 'every thread the scheduler did not start (the initialising thread and any '
+                             'other application thread) keeps the default `%s` == %s, and the public entry points %s use that index for the '
+                             'writer side of pipe %s (e.g. %s at %s). The pipe is single-writer: two application threads calling schedule()/'
+                             'async()/AsyncTask concurrently are two writers of pipe %s -- tasks are lost or run twice. Nothing assigns a '
+                             'distinct index on first use, serialises those threads, or rejects them. [%s]'
+                             % (vname, v0, ep, v0, tu.show(x0), tu.loc(x0), v0, derived), dloc))
+        elif entry_calls and rejects and not first_use and not locked_all:
+            und.append('unregistered threads are rejected at %s: a documented precondition rather than a guarantee [%s]' % (', '.join(sorted(set(rejects))), derived))
+        if verdicts is not None:
+            verdicts.append((vname, sorted({k for k, t, l in problems}) or (None if und else False)))
+            continue
+        for u in und:
+            ctx.undecided(R9, inst, u, dloc)
+        for kind, text, loc in sorted(set(problems)):
+            ctx.violation(R9, inst, text, loc, key='%s|%s|%s|%s' % (R9, file, vname, kind))
+        if not und and not problems:
+            how = 'assigned on first use from an atomic counter (%s)' % ', '.join(short_name(f['q']) for f, x in first_use) if first_use else \
+                'all entry points take a lock around the writer-side operations' if locked_all else 'no public entry point uses it'
+            ctx.ok(R9, inst, '%s [%s]' % (how, derived), dloc)
+    return n
+
+
 def check_wait_drains(ctx, W):
     """TaskScheduler::WaitforTask(p) returns, for p != null, only after p's running count was read as zero"""
     tu = W.scheduler
@@ -2648,18 +2882,55 @@ def check_wait_drains(ctx, W):
         n += 1
         pid = f['params'][0]['id']
 
+        unread = []
+
+        def is_null(e):
+            c = core(tu, e)
+            return c is not None and (c.get('kind') in ('CXXNullPtrLiteralExpr', 'GNUNullExpr') or
+                                      (c.get('kind') == 'IntegerLiteral' and str(c.get('value')) == '0'))
+
+        def truth_of(c, depth=0):
+            """('ptr', +1|-1): c is true iff the task pointer is non-null (+1) / null (-1); ('cnt', +1|-1): iff the running count
+            is non-zero / zero"""
+            c = core(tu, c)
+            if c is None or depth > 4:
+                return None
+            k = c.get('kind')
+            if k == 'UnaryOperator' and c.get('opcode') == '!':
+                r = truth_of(tu.kids(c)[0], depth + 1)
+                return None if r is None else (r[0], -r[1])
+            if k == 'DeclRefExpr' and c.get('referencedDecl', {}).get('id') == pid:
+                return ('ptr', 1)
+            if k == 'MemberExpr' and tu.sd(c).get('d') == cnt and decl_ref(tu, tu.kids(c)[0]) == pid:
+                return ('cnt', 1)
+            if k == 'BinaryOperator' and c.get('opcode') in ('==', '!='):
+                a, b2 = tu.kids(c)
+                for x1, x2 in ((a, b2), (b2, a)):
+                    if is_null(x2):
+                        r = truth_of(x1, depth + 1)
+                        if r is not None:
+                            return (r[0], r[1] if c['opcode'] == '!=' else -r[1])
+            return None
+
         def refine(blk, si, st):
             nn, dr = st
             if blk.cond and len(blk.succ) == 2:
-                c = core(tu, tu.node(blk.cond))
-                if c is not None and c.get('kind') == 'DeclRefExpr' and c.get('referencedDecl', {}).get('id') == pid:
-                    return [('T' if si == 0 else 'F', dr)]
-                if c is not None and c.get('kind') == 'MemberExpr' and tu.sd(c).get('d') == cnt and decl_ref(tu, tu.kids(c)[0]) == pid:
-                    return [(nn, dr or si == 1)]
+                cn = tu.node(blk.cond)
+                r = truth_of(cn)
+                if r is not None:
+                    holds = (si == 0) == (r[1] == 1)      # on this edge: pointer non-null / count non-zero
+                    if r[0] == 'ptr':
+                        return [('T' if holds else 'F', dr)]
+                    return [(nn, dr or not holds)]
+                if any(y.get('kind') == 'DeclRefExpr' and y.get('referencedDecl', {}).get('id') == pid for y in tu.walk(cn)):
+                    unread.append(tu.loc(cn))
             return [st]
         exits, _r = X.exit_states(g, [('?', False)], lambda blk, idx, e, st: [st], refine)
         inst = '[INTERNAL] enki::TaskScheduler::WaitforTask' + W.tag
-        if all(dr for nn, dr in exits if nn != 'F') and exits:
+        if unread and not (all(dr for nn, dr in exits if nn != 'F') and exits):
+            ctx.undecided(R4, inst, 'a test on the task pointer at %s is not understood: cannot separate the null-task path from the '
+                          'waiting path' % ', '.join(sorted(set(unread))), tu.fn_loc(f))
+        elif all(dr for nn, dr in exits if nn != 'F') and exits:
             ctx.ok(R4, inst, 'for a non-null task every return is reached through the exit edge of the loop on its running count '
                    '(count read as zero)', tu.fn_loc(f))
         else:
@@ -2803,14 +3074,15 @@ def run_world(ctx, W):
         check_publication_order(ctx, W, tu)
     n7s, n7p = check_wake_protocol(ctx, W, W.scheduler)
     info = classify_scheduler(ctx, W)
-    n8 = 0
+    n8 = n9 = 0
     if info is None or not info['drains']:
         ctx.broken('%s: cannot identify the pipe member / a function that drains all queued tasks in TaskScheduler.cpp%s' % (R8, W.tag))
     else:
         W.sched_info = info
         n8 = check_scheduler_teardown(ctx, W, info) + check_drain_before_discard(ctx, W, [W.tasksys], info)
+        n9 = check_thread_index(ctx, W, info)
     check_witness(ctx, W)
-    return dict(n8=n8, n7s=n7s, n7p=n7p, n1=n1 + n_sub, names=names, n2=n2, n3=n3, n4=n4, n5=n5, n6=n6, nsites=nsites)
+    return dict(n9=n9, n8=n8, n7s=n7s, n7p=n7p, n1=n1 + n_sub, names=names, n2=n2, n3=n3, n4=n4, n5=n5, n6=n6, nsites=nsites)
 
 
 def floors(ctx, r, tag=''):
@@ -2827,6 +3099,7 @@ def floors(ctx, r, tag=''):
     ctx.floor(R5, r['n5'], 8, 'async<IntJob>, async<StringJob&> x 4 backends' + tag)
     ctx.floor(R6, r['n6'], 5, 'ExecuteRange overrides: schedule_internal x 3, AsyncTaskImpl, parallel_for_internal' + tag)
     ctx.floor(R6, r['nsites'], 2, 'ExecuteRange call sites in TaskScheduler.cpp: 3' + tag)
+    ctx.floor(R9, r['n9'], 1, 'thread-local pipe index variables used for writer-side pipe operations: gtl_threadNum' + tag)
     ctx.floor(R8, r['n8'], 2, 'scheduler destructor + initTaskSystemInternal' + tag)
     ctx.floor(R7, r['n7s'], 1, 'functions of the scheduler that block on the new-task semaphore: WaitForTasks' + tag)
     ctx.floor(R7, r['n7p'], 1, 'functions of the scheduler that publish a task to a pipe: SplitAndAddTask' + tag)
@@ -2848,6 +3121,8 @@ def run(ctx):
     ctx.assume('tbb::task_arena::enqueue, tbb::task_group::run, std::thread and the enkiTS pipe invoke a submitted callable exactly once '
                '(backend contract; the enkiTS partition/pipe bookkeeping is the subject of C01/C12)')
     ctx.assume('std::packaged_task / std::future deliver the value of the invoked callable (standard library contract)')
+    ctx.describe(R9, 'who may write a single-writer pipe: every thread that can reach a writer-side pipe operation through a public entry '
+                     'point owns a distinct pipe index (assigned by the scheduler, on first use, or serialised by a lock)')
     ctx.describe(R8, 'queued tasks are drained (run until all pipes are empty) before the scheduler\'s pipes are discarded: the destructor '
                      'drains; a method that discards without draining is only called on a fresh or drained scheduler')
     ctx.describe(R7, 'enkiTS sleep/wake handshake: a worker registers in the waiter count, then re-checks the pipes, then sleeps; a '
